@@ -14,6 +14,11 @@ from ..model import AnalysisError, Program, norm_key, parent_of, enclosing_stmt
 from ..report import Checker
 from .common import engine
 
+
+def delivers_(prog, cls, fld):
+    from .c15 import delivers
+    return delivers(prog, cls, fld)
+
 EXPLANATION = (
     "Formula canonicalisation (sympy), effect analysis and def-use rules over SeismicRecording3C.orient_sensor_to, "
     "processing.single_azimuth and the azimuth loops. Decided: (R1) the two stores of orient_sensor_to form, with "
@@ -274,101 +279,116 @@ def _settings_reads(prog: Program, qualnames: List[str], pname="settings") -> Se
 
 
 def _r4(ck: Checker, prog: Program, rule: str = "C04.R4"):
+    """azimuthal = stack of single-azimuth results, by value: what is returned is HvsrAzimuthal(S, A, ...) with A the configured
+    azimuths and S the sequence, over A, of traditional_single_azimuth_hvsr_processing(records, <settings>) where <settings> carries
+    every field the single-azimuth path reads - forwarded from the azimuthal settings, the azimuth being the element of A.  Whether
+    the per-azimuth settings are built once and updated in the loop, built per azimuth, through functools.partial, in a loop or a
+    comprehension is immaterial."""
+    from ..pathtable import PathTable, seq_form, SEQ, ELT
     f = prog.func("processing.azimuthal_hvsr_processing")
     fq = f.qualname
     reads = _settings_reads(prog, ["processing.traditional_single_azimuth_hvsr_processing", "processing.prepare_fft_settings",
                                    "processing.prepare_records_with_inconsistent_dt"])
     reads -= {"attr_dict"}
-    cons = calls_in(f.node, "HvsrTraditionalSingleAzimuthProcessingSettings")
-    if len(cons) != 1:
-        raise AnalysisError(f"{fq}: single-azimuth settings construction not found")
-    given = {k.arg: unparse(k.value) for k in cons[0].keywords if k.arg}
-    svar = None
-    p = parent_of(cons[0])
-    if isinstance(p, ast.Assign) and isinstance(p.targets[0], ast.Name):
-        svar = p.targets[0].id
-    loops = [st for st in f.node.body if isinstance(st, ast.For)]
-    if len(loops) != 1 or svar is None:
-        raise AnalysisError(f"{fq}: azimuth loop not found")
-    lp = loops[0]
-    az = lp.target.id if isinstance(lp.target, ast.Name) else None
-    set_in_loop = {}
-    for st in lp.body:
-        if isinstance(st, ast.Assign) and isinstance(st.targets[0], ast.Attribute) and unparse(st.targets[0].value) == svar:
-            set_in_loop[st.targets[0].attr] = unparse(st.value)
     ck.floor(rule, len(reads), 5, "settings fields read by the single-azimuth path")
-    from .c15 import delivers
     scls = prog.cls("HvsrTraditionalSingleAzimuthProcessingSettings")
-    for fld in sorted(reads):
-        if fld in given and given[fld] == f"settings.{fld}" and not delivers(prog, scls, fld):
-            ck.violation(rule, scls.qualname + ".__init__", f"constructor keyword {fld}",
-                         f"`{fld}` is handed to the per-azimuth settings by keyword but the constructor does not store it (falls back to the default): "
-                         f"the azimuthal result would not be the stack of single-azimuth results", loc=f.loc(cons[0]))
-        elif fld in given and given[fld] == f"settings.{fld}":
-            ck.ok(rule, fq, f"{fld} forwarded")
-        elif fld in set_in_loop and fld == "azimuth_in_degrees" and set_in_loop[fld] == az:
-            ck.ok(rule, fq, f"{fld} = loop azimuth")
-        else:
-            ck.violation(rule, fq, f"settings field {fld}",
-                         f"`{fld}` is read by the single-azimuth processing but is not forwarded from the azimuthal settings "
-                         f"(given: {given.get(fld) or set_in_loop.get(fld)}): the azimuthal result would not be the stack of single-azimuth results",
-                         loc=f.loc(cons[0]))
-    # the loop
-    from ..resolve import Resolver, canon
-    from ..cfg import events_per_iteration
-    RR = Resolver(prog, f, inline=False)
-    AZS = RR.expect("settings.azimuths_in_degrees")
-    problems = []
-    if canon(RR.value(lp.iter, lp)) != AZS:
-        problems.append(f"the loop runs over `{unparse(lp.iter)}`")
-    if any(isinstance(x, (ast.Break, ast.Continue, ast.Return)) for x in ast.walk(lp)):
-        problems.append("the loop can skip or stop early")
-    call = calls_in(lp, "traditional_single_azimuth_hvsr_processing")
-    app = calls_in(lp, "append")
-    if len(call) != 1 or len(app) != 1:
-        problems.append(f"{len(call)} single-azimuth call(s) and {len(app)} append(s) per azimuth")
-    else:
-        cfg = cfg_of(f)
-        c_st, a_st = enclosing_stmt(call[0]), enclosing_stmt(app[0])
-        evs = [c_st] if c_st is a_st else [c_st, a_st]
+    single = prog.func("processing.traditional_single_azimuth_hvsr_processing")
+    F = sp.Function
+    R = lambda n: sp.Symbol(n, real=True)   # noqa: E731
+    if f.params[:2] != ["records", "settings"]:
+        raise AnalysisError(f"{fq}: parameters are {f.params}")
+    RECORDS, SETTINGS = R("records"), R("settings")
+    # constructor parameters along the class chain (keyword names for positional arguments)
+    init = scls.find_method("__init__")
+    if init is None:
+        raise AnalysisError(f"{scls.name}.__init__ not found")
+    cons_sites: List[ast.Call] = []
 
-        def classify(n):
-            if cfg.kind(n) != "stmt":
-                return None
-            for i_, e in enumerate(evs):
-                if cfg.ast_of(n) is e:
-                    return i_
+    def fields_of(term):
+        """{field: value} of a per-azimuth settings term built by the hooks below, or None."""
+        if getattr(getattr(term, "func", None), "__name__", "") != "SA_SETTINGS":
             return None
-        res = events_per_iteration(cfg, lp, classify, len(evs))
-        if res != {tuple(1 for _ in evs)}:
-            problems.append(f"per azimuth the processing/append statements execute {sorted(res)} times")
-        b = bind_call(call[0], prog.func("processing.traditional_single_azimuth_hvsr_processing").params)
-        if unparse(b.get("records")) != "records" or not reaching(f).only_param("records", call[0]):
-            problems.append(f"the single-azimuth processing receives `{unparse(b.get('records')) if b.get('records') is not None else None}`, not the caller's records")
-        if unparse(b.get("settings")) != svar:
-            problems.append("the single-azimuth processing does not receive the per-azimuth settings")
-        if canon(RR.value(app[0].args[0], a_st)) != canon(RR.value(call[0], c_st)):
-            problems.append(f"what is appended (`{unparse(app[0].args[0])}`) is not the result of the single-azimuth processing")
-        setaz = [s_ for s_ in lp.body if isinstance(s_, ast.Assign) and unparse(s_.targets[0]) == f"{svar}.azimuth_in_degrees"]
-        order = {id(n): i_ for i_, n in enumerate(ast.walk(lp))}
-        if len(setaz) != 1 or unparse(setaz[0].value) != az or setaz[0].lineno > c_st.lineno and order[id(setaz[0])] > order[id(c_st)]:
-            problems.append("the azimuth is not set on the per-azimuth settings before the processing call")
-    rets = [r for r in own_nodes(f.node) if isinstance(r, ast.Return)]
-    ctor = calls_in(rets[0].value, "HvsrAzimuthal") if rets else []
-    if len(ctor) != 1 or len(ctor[0].args) < 2:
-        problems.append("HvsrAzimuthal(<results>, <azimuths>) is not what is returned")
-    elif app:
-        if unparse(ctor[0].args[0]) != unparse(app[0].func.value):
-            problems.append("the result is not built from the list of per-azimuth results")
-        if canon(RR.value(ctor[0].args[1], rets[0])) != AZS:
-            problems.append(f"the results are paired with `{unparse(ctor[0].args[1])}`, not with settings.azimuths_in_degrees")
-    if not reaching(f).only_param("settings", lp):
-        problems.append("`settings` is reassigned before the loop")
+        return {a.func.__name__[4:]: a.args[0] for a in term.args}
+
+    def hook(call, T):
+        nm = call_name(call)
+        if nm == scls.name and isinstance(call.func, ast.Name):
+            cons_sites.append(call)
+            b = bind_call(call, init.params, skip_first=True)
+            if any(isinstance(a, ast.Starred) for a in call.args) or any(k.arg is None for k in call.keywords):
+                raise AnalysisError(f"{fq}: the per-azimuth settings are built from unpacked arguments")
+            return F("SA_SETTINGS")(*[F("fld_" + k)(T.tr(v)) for k, v in sorted(b.items())])
+        if nm == single.name and isinstance(call.func, ast.Name):
+            b = bind_call(call, single.params)
+            rec = T.tr(b["records"]) if "records" in b else sp.Symbol("<missing>")
+            sarg = b.get("settings")
+            if sarg is None:
+                return F(single.name)(rec, sp.Symbol("<missing>"))
+            sv = T.tr(sarg)
+            if isinstance(sarg, ast.Name):
+                over = {k.split(".", 1)[1]: v for k, v in T.env.items() if k.startswith(sarg.id + ".") and "." not in k.split(".", 1)[1]}
+                fl = fields_of(sv)
+                if fl is not None and over:
+                    fl.update(over)
+                    sv = F("SA_SETTINGS")(*[F("fld_" + k)(v) for k, v in sorted(fl.items())])
+            return F(single.name)(rec, sv)
+        return None
+    pt = PathTable(prog, f.module, call_hook=hook, unroll=True, structured=True, map_loops=True, opaque={single.name, "prepare_fft_settings"})
+    leaves = [l for l in pt.leaves(f.node.body) if l.exit != "raise"]
+    if len(leaves) != 1 or leaves[0].exit != "return" or leaves[0].value is None:
+        raise AnalysisError(f"{fq}: expected one returning path, found {len(leaves)}")
+    ret = leaves[0].value
+    if getattr(getattr(ret, "func", None), "__name__", "") != "HvsrAzimuthal" or len(ret.args) < 2:
+        ck.violation(rule, fq, "azimuth loop", "HvsrAzimuthal(<results>, <azimuths>) is not what is returned", loc=f.loc())
+        return
+    AZS = F("attr_azimuths_in_degrees")(SETTINGS)
+    results, azimuths = seq_form(ret.args[0]), ret.args[1]
+    problems: List[str] = []
+    if azimuths != AZS:
+        problems.append(f"the results are paired with `{azimuths}`, not with settings.azimuths_in_degrees")
+    fl = None
+    if getattr(getattr(results, "func", None), "__name__", "") != "SEQ":
+        problems.append(f"the first argument of HvsrAzimuthal is {str(results)[:120]}, not one single-azimuth result per configured azimuth")
+    else:
+        body, over = results.args
+        if over != AZS:
+            problems.append(f"the results are computed over `{over}`, not over settings.azimuths_in_degrees in order")
+        if getattr(getattr(body, "func", None), "__name__", "") != single.name:
+            problems.append(f"result i is {str(body)[:120]}, not the single-azimuth processing")
+        else:
+            if body.args[0] != RECORDS:
+                problems.append(f"the single-azimuth processing receives `{body.args[0]}`, not the caller's records")
+            fl = fields_of(body.args[1])
+            if fl is None:
+                problems.append(f"the single-azimuth processing receives `{str(body.args[1])[:100]}`, not per-azimuth settings built from the azimuthal settings")
+    site = cons_sites[0] if cons_sites else f.node
+    if fl is not None:
+        for fld in sorted(reads):
+            v = fl.get(fld)
+            if fld == "azimuth_in_degrees":
+                if v == ELT:
+                    ck.ok(rule, fq, f"{fld} = loop azimuth")
+                else:
+                    ck.violation(rule, fq, f"settings field {fld}",
+                                 f"`{fld}` of the per-azimuth settings is `{v}` when the i-th result is computed, not the i-th configured azimuth "
+                                 f"(the azimuthal result would not be the stack of single-azimuth results)", loc=f.loc(site))
+            elif v == F("attr_" + fld)(SETTINGS):
+                if not delivers_(prog, scls, fld):
+                    ck.violation(rule, scls.qualname + ".__init__", f"constructor keyword {fld}",
+                                 f"`{fld}` is handed to the per-azimuth settings but the constructor does not store it (falls back to the default): "
+                                 f"the azimuthal result would not be the stack of single-azimuth results", loc=f.loc(site))
+                else:
+                    ck.ok(rule, fq, f"{fld} forwarded")
+            else:
+                ck.violation(rule, fq, f"settings field {fld}",
+                             f"`{fld}` is read by the single-azimuth processing but is not forwarded from the azimuthal settings "
+                             f"(given: {v}): the azimuthal result would not be the stack of single-azimuth results", loc=f.loc(site))
     if not problems:
-        ck.ok(rule, fq, norm_key(lp), detail="result i = single-azimuth processing at azimuth i; paired with the azimuth list")
+        ck.ok(rule, fq, "result i = single-azimuth processing at azimuth i; paired with the azimuth list",
+              detail=str(results)[:200])
     else:
         ck.violation(rule, fq, "azimuth loop", "the azimuthal result is not the in-order list of single-azimuth results paired with settings.azimuths_in_degrees: "
-                     + "; ".join(problems), loc=f.loc(lp))
+                     + "; ".join(problems), loc=f.loc())
     # single-azimuth body uses its settings' azimuth
     g = prog.func("processing.traditional_single_azimuth_hvsr_processing")
     c = [x for x in calls_in(g.node, "single_azimuth") if isinstance(x.func, ast.Name)]
